@@ -94,6 +94,13 @@ JUNK_LINES = [
     "% matlab style comment",
     "// c style comment",
     "VERTEX_XYTHETA 0 0 0 0",
+    # control characters that are NOT line terminators of a text file (form feed, vertical tab, FS/GS/RS): one line, one warning,
+    # and the text after them is not a record of its own
+    "# page break\x0cVERTEX_SE2 987654 1 2 3",
+    "note\x0bEDGE_SE2 0 1 1 2 3 1 0 0 1 0 1",
+    "#\x1cVERTEX_XY 987655 1 2",
+    "x\x1dPARAMS_SE2OFFSET 77 0 0 0",
+    "x\x1eVERTEX_TRACKXYZ 987656 1 2 3",
 ]
 BLANK_LINES = ["", " ", "   ", "\t", " \t "]
 
